@@ -177,7 +177,7 @@ def run_gen(ctx, case):
     repeated = (i % 6 == 0)
     big = (i % 25 == 0)
     text, truth = itpspec.gen_top(rng, n=int(rng.integers(40, 400)) if big else None, repeated=repeated,
-                                  trailing=('plain', 'single', 'multiple', 'empty', 'hash', 'nospace', 'multiple-last-empty', 'semicolons-only'),
+                                  trailing=('plain', 'single', 'multiple', 'empty', 'hash', 'nospace', 'multiple-last-empty', 'semicolons-only', 'hash-nospace'),
                                   sections_before_atoms=(i % 9 == 0))
     path = os.path.join(_tmp['dir'], f't{os.getpid()}.itp')
     with open(path, 'w') as fh:
